@@ -110,3 +110,33 @@ func TestRendezvousUnbuffered(t *testing.T) {
 		t.Fatalf("%s vs %s", outcomes(a), outcomes(b))
 	}
 }
+
+// stall deviations: a goroutine between two steps can be held back while the clock moves on.
+// Without them the maximal-progress clock never lets main's 1 ms pass while the worker is runnable.
+func TestStallDeviation(t *testing.T) {
+	var flag bool
+	sc := &Scenario{Name: "stall", Reset: func() { flag = false }, Main: func() {
+		done := make(chan struct{}, 1)
+		Go(func() {
+			PointKind("step1")
+			PointKind("step2")
+			Log("worker sees flag=%v", flag)
+			Send(done, struct{}{})
+		})
+		Sleep(1e6)
+		flag = true
+		Recv(done)
+	}}
+	for _, stall := range []bool{false, true} {
+		st := Explore(sc, Options{Bound: 1, StrictDev: true, Stall: stall})
+		got := outcomes(st)
+		sawLate := strings.Contains(got, "flag=true")
+		if stall != sawLate {
+			t.Fatalf("stall=%v: outcomes %s", stall, got)
+		}
+		if !st.Complete {
+			t.Fatalf("incomplete")
+		}
+	}
+	StallDeviations = false
+}
